@@ -62,9 +62,9 @@ def audit_axioms(prop_id, names, workdir):
     open(path, "w").write(src)
     rc, out = runner.sh(["lake", "env", "lean", path], cwd=runner.LEAN, timeout=1800)
     res = {}
-    for m in re.finditer(r"'([^']+)' depends on axioms: \[([^\]]*)\]", out):
+    for m in re.finditer(r"'(\S+)' depends on axioms: \[([^\]]*)\]", out):
         res[m.group(1).split(".")[-1]] = [a.strip() for a in m.group(2).split(",") if a.strip()]
-    for m in re.finditer(r"'([^']+)' does not depend on any axioms", out):
+    for m in re.finditer(r"'(\S+)' does not depend on any axioms", out):
         res[m.group(1).split(".")[-1]] = []
     return res, out
 
